@@ -114,6 +114,23 @@ func usePrivate(a, b *ext2.Head, c, d *ext2.Tail) (bool, int, bool) {
 	return deriveEqualHead(a, b), deriveCompareTail(c, d), deriveEqualTail(c, d)
 }
 
+// maps whose keys cannot be copied by assignment (pointer key, struct key holding a pointer): front-end only - the
+// generated deep copy must type-check (equality of pointer-keyed maps is by key identity, so no semantic claim)
+type PKey struct {
+	P *int
+	N string
+}
+
+type PKeyed struct {
+	M  map[PKey][]int
+	MP map[*int]string
+}
+
+func usePtrKeys(a, b *PKeyed) *PKeyed {
+	deriveDeepCopyPKeyed(a, b)
+	return deriveClonePKeyed(a)
+}
+
 // nested derive call behind an argument of basic type: the call can only be typed after an earlier generation pass
 func VX_C01_form_nested2() {
 	x := vx.Nondet[*Node]("x")
@@ -128,4 +145,24 @@ func VX_C01_form_nested3() {
 	n := vx.Nondet[int]("n")
 	a, ks := deriveTupleK(n, deriveKeysK(m))()
 	vx.Assert(a == n && len(ks) == len(m), "tuple of a basic value and the keys of a map (nested call typed only after the first pass)")
+}
+
+// helper functions requested transitively for NAMED basic types: Compare and Hash over a map keyed by a named
+// string ask the sort plugin for deriveSort([]Color), which must be generated for []Color, not for []string
+type Color string
+
+type Shade int
+
+type Palette struct {
+	Name    string
+	Weights map[Color]int
+	Levels  map[Shade]float64
+}
+
+func VX_C01_form_namedkeys() {
+	x := vx.NondetOpt[*Palette]("x", "map=1,str=1")
+	vx.Assert(deriveComparePalette(x, x) == 0, "a value compares equal to itself (maps keyed by named basic types)")
+	vx.Assert(deriveHashPalette(x) == deriveHashPalette(x), "hash repeatable")
+	l := deriveSortColors([]Color{"b", "a"})
+	vx.Assert(l[0] == "a" && l[1] == "b", "direct sort of a slice of a named string type")
 }
